@@ -313,13 +313,14 @@ Definition with_leaf (b : backend) (s : st) (p : path) (k : nat -> string -> opt
 
 Definition seth (s : st) (h : list node) : st := mkSt h (handles s).
 
-(* Symlink / Mknod / Link assign into parent.children without testing that the
-   parent is a directory: a nil map there panics *)
-Definition enter_new (s : st) (pi : nat) (base : string) (c : option nat) (mk : list node -> list node) : st * out :=
-  match c with
-  | Some _ => (s, OErr EExist)
-  | None => if is_dir (heap s) pi then (seth s (mk (heap s)), OOk) else (s, OPanic)
-  end.
+(* Symlink / Mknod / Link (since fix ba6ef02): "parent is not a directory" first,
+   then ErrExist, then the new entry *)
+Definition enter_new (s : st) (pi : nat) (c : option nat) (mk : list node -> list node) : st * out :=
+  if negb (is_dir (heap s) pi) then (s, OErr EOther)
+  else match c with
+       | Some _ => (s, OErr EExist)
+       | None => (seth s (mk (heap s)), OOk)
+       end.
 
 Definition rdwr_create_trunc := mkFl ARdWr false true false true.
 Definition rdonly := mkFl ARd false false false false.
@@ -348,8 +349,8 @@ Definition model_step (b : backend) (s : st) (o : op) : st * out :=
   | ReadAt i n off =>
       with_handle s i (fun hd =>
         let d := n_data (get (heap s) (h_ino hd)) in
-        if (off >=? blen d)%Z then (s, OErr EEOF)
-        else if (off <? 0)%Z then (s, OPanic)
+        if (off <? 0)%Z then (s, OErr EOther)                  (* "negative offset", fix ba6ef02 *)
+        else if (off >=? blen d)%Z then (s, OErr EEOF)
         else (s, OBytes (firstn n (skipn (Z.to_nat off) d))))
   | Write i p =>
       with_handle s i (fun hd =>
@@ -365,7 +366,8 @@ Definition model_step (b : backend) (s : st) (o : op) : st * out :=
                  end in
         match r with
         | None => (s, OErr EOther)
-        | Some o' => (mkSt (heap s) (upd_h (handles s) i (set_off o')), ONum o')
+        | Some o' => if (o' <? 0)%Z then (s, OErr EOther)       (* "negative position", fix ba6ef02 *)
+                     else (mkSt (heap s) (upd_h (handles s) i (set_off o')), ONum o')
         end)
   | Close i =>
       with_handle s i (fun hd => (mkSt (heap s) (upd_h (handles s) i set_closed), OOk))
@@ -387,18 +389,19 @@ Definition model_step (b : backend) (s : st) (o : op) : st * out :=
       with_node b s p (fun i => (s, info_of (get (heap s) i)))
   | Symlink tgt p =>
       with_leaf b s p (fun pi base c =>
-        enter_new s pi base c (fun h => fst (create h pi base
+        enter_new s pi c (fun h => fst (create h pi base
           (mkNode KSym 511%N 0%Z 0%Z [] None tgt 0%N [] []))))
   | Mknod p perm dev =>
       with_leaf b s p (fun pi base c =>
-        enter_new s pi base c (fun h => fst (create h pi base
+        enter_new s pi c (fun h => fst (create h pi base
           (mkNode KDev perm 0%Z 0%Z [] None [] dev [] []))))
   | Link old new =>
       with_leaf b s new (fun pi base c =>
-        match get_node b (heap s) old with
-        | inr _ => (s, OErr ENotExist)
-        | inl t => enter_new s pi base c (fun h => add_child h pi base t)
-        end)
+        if negb (is_dir (heap s) pi) then (s, OErr EOther)
+        else match get_node b (heap s) old with
+             | inr _ => (s, OErr ENotExist)
+             | inl t => enter_new s pi c (fun h => add_child h pi base t)
+             end)
   | Readlink p =>
       with_leaf b s p (fun pi base c =>
         match c with
